@@ -759,8 +759,8 @@ class _NDBase:
     internal = False        # True: the written instances are observed by reading the same instance back
     readable = True         # has an input side
     writable = True         # has an output side
-    connect = True          # elements can be used in connect statements
-    whole = False
+    modes = "clvn"          # access modes: constant / loop-variable / signal index in update blocks, connect
+    connect_fn = False      # connect( a, b ) instead of a //= b
 
     def __init__(s, ctx, dims, w):
         s.ctx, s.dims, s.w, s.N = ctx, dims, w, _prod(dims)
@@ -801,7 +801,6 @@ class _NDWire(_NDPort):
 
 class _NDPField(_NDBase):
     """packed array of Bits inside a struct (field `arr` between two fields of odd widths)"""
-    whole = True
     elem = None
 
     def __init__(s, ctx, dims, w):
@@ -848,7 +847,9 @@ class _NDPField(_NDBase):
 
 
 class _NDSField(_NDPField):
+    """packed array of structs inside a struct: s.a.arr[i][j].x"""
     elem = "struct"
+    connect_fn = True       # (s.o.arr[0].x //= ... is not accepted by the DSL: attribute assignment on a signal slice)
 
 
 class _NDPFWire(_NDPField):
@@ -878,8 +879,7 @@ class _NDPFWire(_NDPField):
 class _NDPFTmp(_NDPField):
     """struct-typed temporary: t = s.a; t.arr[i][j]"""
     writable = False
-    connect = False
-    whole = False
+    modes = "clv"
 
     def pre_rd(s, name):
         return ["t = s.%s" % name]
@@ -1026,8 +1026,9 @@ class _NDCompIfc(_NDBase):
 
 
 class _NDConstArr(_NDBase):
-    """n-dimensional list of constants"""
+    """n-dimensional list of constants (the back ends accept constant indices only)"""
     writable = False
+    modes = "cn"
 
     def decl_in(s, name):
         def build(ix, dims):
@@ -1077,6 +1078,9 @@ def nd_design(R, cons, nd):
             out.append("  " * k + "for %s in range(%d):" % (v, dims[k]))
         return "\n".join(out + ["  " * nd + b for b in body])
 
+    def conn(a, b):
+        return "connect( %s, %s )" % (a, b) if C.connect_fn else "%s //= %s" % (a, b)
+
     def guarded(stmt, other):
         if not guard:
             return [stmt]
@@ -1099,7 +1103,7 @@ def nd_design(R, cons, nd):
             blocks.append(_block("up_rv", C.pre_rd(inst) + guarded("s.rv @= %s" % C.rd(inst, sel), "s.rv @= %d" % cst(N))))
         else:
             for ix in es:
-                decl.append("s.rn[%d] //= %s" % (_flat(dims, ix), C.rd(inst, ix)))
+                decl.append(conn("s.rn[%d]" % _flat(dims, ix), C.rd(inst, ix)))
 
     def writer(inst, mode):
         fe = _flat_expr(dims, lv)
@@ -1113,10 +1117,10 @@ def nd_design(R, cons, nd):
                                  + guarded("%s @= s.fi[0]" % C.wr(inst, sel), "") + C.post_wr(inst, mode)))
         else:
             for ix in es:
-                decl.append("%s //= s.fi[%d]" % (C.wr(inst, ix), _flat(dims, ix)))
-            decl.extend(C.post_wr(inst, mode))
+                decl.append(conn(C.wr(inst, ix), "s.fi[%d]" % _flat(dims, ix)))
+            decl.extend(conn(*x.split(" //= ")) for x in C.post_wr(inst, mode))
 
-    modes = "clvn" if C.connect else "clv"
+    modes = C.modes
     if C.internal:
         for m, rm in zip("clvn", "lcnv"):
             decl += C.decl_int("w" + m)
@@ -1145,8 +1149,99 @@ def fam_nd(R, idx):
     return nd_design(R, cons, nd)
 
 
+
+# range forms: (name, range text with %(n)d = number of elements; every value is < n)
+LV_FORMS = [("asc", "range( %(n)d )"), ("asc2", "range( 2, %(n)d )"), ("step2", "range( 0, %(n)d, 2 )"),
+            ("step3", "range( 1, %(n)d, 3 )"), ("desc", "range( %(m)d, 1, -1 )"), ("desc0", "range( %(m)d, -1, -1 )"),
+            ("descstep", "range( %(m)d, 0, -2 )"), ("nested", None)]
+# uses of the loop variable: (name, output kind, statement); kinds: a<w> = array of n Bits<w> (element i written),
+# v = Bits<n> vector (bit i written), w = Bits<4n> vector (slice i written)
+LV_USES = [
+    ("idx",    "a8", "s.o_idx[i] @= s.x[i]"),
+    ("bitidx", "v",  "s.o_bitidx[i] @= s.v[i]"),
+    ("add",    "a8", "s.o_add[i] @= s.a + i"),
+    ("sub",    "a8", "s.o_sub[i] @= s.a - i"),
+    ("rsub",   "a8", "s.o_rsub[i] @= i - s.a"),
+    ("and",    "a8", "s.o_and[i] @= s.a & i"),
+    ("or",     "a8", "s.o_or[i] @= s.a | i"),
+    ("xor",    "a8", "s.o_xor[i] @= i ^ s.a"),
+    ("mul",    "a8", "s.o_mul[i] @= s.a * i"),
+    ("lt",     "v",  "s.o_lt[i] @= s.b < i"),
+    ("eq",     "v",  "s.o_eq[i] @= s.b == i"),
+    ("ge",     "v",  "s.o_ge[i] @= i >= s.b"),
+    ("shr",    "a8", "s.o_shr[i] @= s.a >> i"),
+    ("shl",    "a8", "s.o_shl[i] @= s.a << i"),
+    ("lshift", "a8", "s.o_lshift[i] @= Bits8( i ) << s.b"),
+    ("castk",  "ak", "s.o_castk[i] @= Bits%(k)d( i )"),
+    ("cast8",  "a8", "s.o_cast8[i] @= Bits8( i )"),
+    ("castop", "a8", "s.o_castop[i] @= s.a + zext( Bits%(k)d( i ), 8 )"),
+    ("zext",   "a8", "s.o_zext[i] @= zext( Bits%(k)d( i ), 8 )"),
+    ("trunc",  "a2", "s.o_trunc[i] @= trunc( Bits8( i ), 2 )"),
+    ("sextidx", "a8", "s.o_sextidx[i] @= sext( s.xs[i], 8 )"),
+    ("slice",  "a4", "s.o_slice[i] @= s.big[ i*4 : i*4+4 ]"),
+    ("slice1", "a4", "s.o_slice1[i] @= s.big[ i : i+4 ]"),
+    ("wslice", "w",  "s.o_wslice[ i*4 : i*4+4 ] @= s.a[0:4] + i"),
+    ("ifeq",   "a8", "if s.b == i:\n  s.o_ifeq[i] @= s.a"),
+    ("ifexp",  "a8", "s.o_ifexp[i] @= s.a if s.b < i else s.x[i]"),
+]
+
+
+def fam_lv(R, idx):
+    """Every use of a loop variable (index, operand, comparison, shift amount, shifted value, size casts,
+    extensions, slice bounds) under every range form (ascending, offset, stepped, descending, nested)."""
+    ctx = Ctx(R)
+    form, rtxt = LV_FORMS[idx % len(LV_FORMS)]
+    n = 8 if form in ("desc", "descstep") or R.random() < 0.6 else 6
+    k = clog2(n)
+    sigs = {}
+    if form == "nested":
+        a, b = R.choice([(2, 3), (3, 2), (3, 4)])
+        jr = R.choice(["range( %d )" % b, "range( %d, -1, -1 )" % (b - 1), "range( %d, 0, -1 )" % (b - 1)])
+        decl = ["s.a = InPort( Bits8 )", "s.x = [ [ InPort( Bits8 ) for _ in range(%d) ] for _ in range(%d) ]" % (b, a),
+                "s.big = InPort( Bits%d )" % (a * b * 2)]
+        outs = {"nidx": "s.o_nidx[i][j] @= s.x[i][j] + ( i*%d + j )" % b,
+                "nflat": "s.o_nflat[i*%d + j][0] @= s.x[i][j]" % b,
+                "nshift": "s.o_nshift[i][j] @= ( s.a >> i ) << j",
+                "ncast": "s.o_ncast[i][j] @= zext( Bits2( i ), 8 ) + zext( Bits3( j ), 8 )",
+                "nslice": "s.o_nslice[i][j] @= zext( s.big[ i*%d + j*2 : i*%d + j*2 + 2 ], 8 )" % (2 * b, 2 * b),
+                "ncmp": "s.o_ncmp[i][j] @= zext( i < j, 8 ) + zext( s.a[0:2] == i, 8 )"}
+        body = []
+        for nm, st in outs.items():
+            if nm == "nflat":
+                decl.append("s.o_nflat = [ [ OutPort( Bits8 ) ] for _ in range(%d) ]" % (a * b))
+            else:
+                decl.append("s.o_%s = [ [ OutPort( Bits8 ) for _ in range(%d) ] for _ in range(%d) ]" % (nm, b, a))
+            sigs["o_" + nm] = "lv.%s.nested" % nm
+            body.append(st)
+        dflt = "for i in range( %d ):\n  for j in range( %d ):\n%s" % (
+            a, b, "\n".join("    s.o_%s[i][j] @= 0" % nm for nm in outs if nm != "nflat"))
+        dflt += "\nfor i in range( %d ):\n  s.o_nflat[i][0] @= 0" % (a * b)
+        main = "for i in range( %d ):\n  for j in %s:\n%s" % (a, jr, "\n".join("    " + ln for st in body for ln in st.split("\n")))
+        return "lv_nested", _emit(ctx, [_block("up", [dflt, main])], decl), sigs
+    rtxt = rtxt % {"n": n, "m": n - 1}
+    decl = ["s.a = InPort( Bits8 )", "s.b = InPort( Bits4 )", "s.v = InPort( Bits%d )" % n,
+            "s.x = [ InPort( Bits8 ) for _ in range(%d) ]" % n, "s.xs = [ InPort( Bits4 ) for _ in range(%d) ]" % n,
+            "s.big = InPort( Bits%d )" % (4 * n)]
+    dflt, dvec, body = [], [], []
+    for nm, kind, st in LV_USES:
+        st = st % {"k": k} if "%(" in st else st
+        o = "o_" + nm
+        sigs[o] = "lv.%s.%s" % (nm, form)
+        if kind[0] == "a":
+            w = k if kind == "ak" else int(kind[1:])
+            decl.append("s.%s = [ OutPort( Bits%d ) for _ in range(%d) ]" % (o, w, n))
+            dflt.append("  s.%s[d] @= 0" % o)
+        else:
+            decl.append("s.%s = OutPort( Bits%d )" % (o, n if kind == "v" else 4 * n))
+            dvec.append("s.%s @= 0" % o)
+        body.append(st)
+    stmts = ["for d in range( %d ):\n%s" % (n, "\n".join(dflt))] + dvec
+    stmts.append("for i in %s:\n%s" % (rtxt, "\n".join("  " + ln for st in body for ln in st.split("\n"))))
+    return "lv_%s" % form, _emit(ctx, [_block("up", stmts)], decl), sigs
+
+
 FAMILIES = {"unit": fam_unit, "ops": fam_ops, "expr": fam_expr, "ctrl": fam_ctrl, "loopidx": fam_loopidx, "struct": fam_struct,
-            "hier": fam_hier, "seq": fam_seq, "misc": fam_misc, "nd": fam_nd}
+            "hier": fam_hier, "seq": fam_seq, "misc": fam_misc, "nd": fam_nd, "lv": fam_lv}
 
 
 def design(family, index, seed_tag=""):
